@@ -94,10 +94,15 @@ import sys, json
 from dataflows import Flow, parallelize
 n, m, pat = int(sys.argv[1]), int(sys.argv[2]), sys.argv[3]
 up = sys.argv[4] if len(sys.argv) > 4 else 'none'
+fail = len(sys.argv) > 5 and sys.argv[5] == 'fail'
+def fails(i): return fail and i % 5 == 2
 def sel(i):
     return {'all': True, 'none': False, 'some': i % 3 != 1, 'first-late': i >= m - 2}[pat]
 def pred(row): return sel(row['i'])
-def work(row): row['v'] += 1000
+def work(row):
+    if fails(row['i']):
+        raise ValueError('row function fails on this row')      # the row is still delivered, as it was
+    row['v'] += 1000
 rows = [{'i': i, 'v': i} for i in range(m)]
 def rows_gen(rows):
     for r in rows:
@@ -109,12 +114,12 @@ def rows_tuple(rows):
 upstream = {'none': [], 'rows-generator': [rows_gen], 'rows-returns-list': [rows_list], 'rows-returns-tuple': [rows_tuple]}[up]
 res = Flow(rows, *upstream, parallelize(work, num_processors=n, predicate=pred)).results()[0]
 got = sorted(r['v'] for r in res[0]) if res else []
-exp = sorted((i + 1000) if sel(i) else i for i in range(m))
+exp = sorted((i + 1000) if sel(i) and not fails(i) else i for i in range(m))
 print(json.dumps({'ok': got == exp, 'got_len': len(got), 'exp_len': len(exp)}))
 '''
 
 
-def real_case(ctx, rng, many=None, up=None):
+def real_case(ctx, rng, many=None, up=None, fail=False):
     rep = ctx.report
     n = rng.choice([1, 2, 3, 4])
     m = rng.choice([1, 2, 7, 150, 1000] if ctx.quick else [1, 2, 7, 150, 1000, 3000])
@@ -125,17 +130,22 @@ def real_case(ctx, rng, many=None, up=None):
     # what feeds parallelize: the source itself, or a user `rows` step that yields / returns a list / returns a tuple
     up = up or rng.choice(['none', 'rows-generator', 'rows-returns-list', 'rows-returns-tuple'])
     case = {'real-multiprocess': True, 'workers': n, 'rows': m, 'pattern': pat, 'step_in_front': up}
+    if fail:
+        case['row_function'] = 'raises on rows with i % 5 == 2'
+        # rows that are both selected and fail must exist
+        m = case['rows'] = rng.choice([7, 150])
+        pat = case['pattern'] = rng.choice(['all', 'some'])
     script = os.path.join(ctx.scratch, 'real.py')
     with open(script, 'w') as f:
         f.write(REAL_SCRIPT)
     try:
-        p = subprocess.run([sys.executable, '-W', 'ignore', script, str(n), str(m), pat, up], stdout=subprocess.PIPE,
+        p = subprocess.run([sys.executable, '-W', 'ignore', script, str(n), str(m), pat, up, 'fail' if fail else 'ok'], stdout=subprocess.PIPE,
                            stderr=subprocess.DEVNULL, timeout=90, text=True)
         lines = [ln for ln in p.stdout.splitlines() if ln.startswith('{')]
         out = json.loads(lines[-1]) if lines else {'ok': False, 'note': 'no output, exit %s' % p.returncode}
     except subprocess.TimeoutExpired:
         out = {'ok': False, 'note': 'hang'}
-    rep.case('real-mp', case, key=[n, m, pat, up])
+    rep.case('real-mp', case, key=[n, m, pat, up, fail])
     if not out.get('ok'):
         rep.fail('real-run:%s' % ('hang' if out.get('note') == 'hang' else 'wrong-multiset'), case, out)
 
@@ -159,6 +169,8 @@ def run(ctx):
         real_case(ctx, rng, up=['none', 'rows-generator', 'rows-returns-list', 'rows-returns-tuple'][j % 4])
     for many in (33, 70):
         real_case(ctx, rng, many=many)
+    for _ in range(ctx.n(2, 8)):
+        real_case(ctx, rng, fail=True)          # a row function that raises on some rows loses none
     if ctx.model.available():
         outs = ctx.model.run([op for _, op, _, _, _ in pending])
         for (case, op, real, prelude, first), mo in zip(pending, outs):
